@@ -50,6 +50,54 @@ mod initiator;
 mod responder;
 pub(crate) mod spake2p;
 
+/// Verification hooks (feature `verif`): the (crate-private) SPAKE2+ implementation, so that a
+/// harness can play the PASE initiator message by message.
+#[cfg(feature = "verif")]
+pub mod verif_spake2p {
+    pub use super::spake2p::*;
+}
+
+/// Verification hook: `(salt, iterations)` of a PBKDFParamResponse payload.
+#[cfg(feature = "verif")]
+pub fn verif_parse_pbkdf_resp(
+    payload: &[u8],
+) -> Result<(crate::utils::storage::Vec<u8, 32>, u32), Error> {
+    use crate::tlv::{FromTLV, TLVElement};
+
+    let resp = PBKDFParamResp::from_tlv(&TLVElement::new(payload))?;
+    let params = resp.params.ok_or(ErrorCode::Invalid)?;
+    let mut salt = crate::utils::storage::Vec::new();
+    salt.extend_from_slice(params.salt.0)
+        .map_err(|_| ErrorCode::Invalid)?;
+
+    Ok((salt, params.iterations))
+}
+
+/// Verification hook: `(pB, cB)` of a Pake2 payload.
+#[cfg(feature = "verif")]
+pub fn verif_parse_pake2(payload: &[u8]) -> Result<([u8; 65], [u8; 32]), Error> {
+    use crate::tlv::{FromTLV, TLVElement};
+
+    let pake2 = Pake2::from_tlv(&TLVElement::new(payload))?;
+    let pb: [u8; 65] = pake2.pb.0.try_into().map_err(|_| ErrorCode::Invalid)?;
+    let cb: [u8; 32] = pake2.cb.0.try_into().map_err(|_| ErrorCode::Invalid)?;
+
+    Ok((pb, cb))
+}
+
+/// Verification hooks: read-only view of the window / in-progress state.
+#[cfg(feature = "verif")]
+impl Pase {
+    /// `(window present, failed PAKE attempts of the window, in-progress marker present)`
+    pub fn verif_state(&self) -> (bool, Option<u8>, bool) {
+        (
+            self.comm_window.is_some(),
+            self.comm_window.as_opt_ref().map(|w| w.pake_failures),
+            self.session_timeout.is_some(),
+        )
+    }
+}
+
 /// Minimal commissioning window timeout in seconds, as per the Matter Core Spec
 pub const MIN_COMM_WINDOW_TIMEOUT_SECS: u16 = 3 * 60;
 /// Maximal commissioning window timeout in seconds, as per the Matter Core Spec
